@@ -20,7 +20,8 @@ BOUNDS = {"graphs": "7 derivation graphs with <=3 nodes", "native": "native/c16_
 
 
 def tasks(tier):
-    return _core.signature_tasks() + _core.defns_tasks() + _core.defns_history_tasks() + _core.guard_tasks() + _core.register_frame_tasks() + _core.unregister_frame_tasks() + _core.copy_variant_tasks() + _core.compile_tasks() + _core.compile_parent_tasks() + _core.lock_tasks() + _core.update_tasks()
+    # a class statement with extend_super derives from the base classes' functions: they must not change either
+    return _core.cls_body_tasks() + _core.signature_tasks() + _core.defns_tasks() + _core.defns_history_tasks() + _core.guard_tasks() + _core.register_frame_tasks() + _core.unregister_frame_tasks() + _core.copy_variant_tasks() + _core.compile_tasks() + _core.compile_parent_tasks() + _core.lock_tasks() + _core.update_tasks()
 
 
 def conformance(tier):
